@@ -123,6 +123,18 @@ pub fn lexeme_context_texts() -> Vec<(String, bool)> {
     let mut v: Vec<(String, bool)> = Vec::new();
     let units = ["ns", "us", "µs", "ms", "s", "dt", "im"];
     for i in instances() {
+        // pragma and annotation lines and version headers in all their spellings; a blank inside
+        // the lexeme is written `¤` (callers split the texts at blanks)
+        if i.expect.len() == 1 && (i.line || i.header) {
+            let t = i.text.replace(' ', "¤");
+            match i.expect[0].0.as_str() {
+                "PRAGMA" => v.push((format!("{}\n", t), true)),
+                "ANNOTATION" => v.push((format!("{}\n h r ;", t), true)),
+                "VERSION_STRING" => v.push((format!("{} ;", t), true)),
+                _ => {}
+            }
+            continue;
+        }
         if i.line || i.header || i.text.contains(' ') && i.expect.len() == 1 {
             continue;
         }
